@@ -113,6 +113,8 @@ type FuncVC struct {
 	lemmaName   string
 	tablesUsed  map[string]bool
 	inFinish    bool
+	noStepFrame bool
+	curPos      token.Pos
 	strictState *State
 	stackCells  []stackCell
 	heapType    map[string]types.Type
@@ -265,6 +267,9 @@ func (fv *FuncVC) oblige(kind string, what string, cond Term, pos token.Pos, not
 		base += ":" + what
 	}
 	trivial := cond.S == "true"
+	if !pos.IsValid() {
+		pos = fv.curPos
+	}
 	n := fv.oblCount[base]
 	fv.oblCount[base] = n + 1
 	o := &Obligation{
@@ -311,6 +316,17 @@ func (fv *FuncVC) heap(s *State, name, elemSort string) Term {
 
 func (fv *FuncVC) setHeap(s *State, name string, v Term) {
 	s.heaps[name] = v
+	// stepwise frame: right after each update of the raw byte heap, check (and thereby record)
+	// that it still agrees with the entry heap outside the modifies clause; the frame obligation
+	// at returns and back edges is then a one-step consequence instead of a long chain.
+	if name == "M" && s == fv.cur && fv.Fn != nil && !fv.inFinish && fv.FC.Opts["opt"] != "noframe" && !fv.noStepFrame {
+		old := fv.heap(fv.entry, "M", SInt)
+		if old.S != v.S {
+			envPre := fv.newEnv(fv.entry, fv.entry)
+			byHeap, _ := fv.clausesByHeap(envPre, fv.FC.Modifies)
+			fv.oblige("frame.step", "M", fv.frameAxiom(envPre, "M", old, v, byHeap["M"]), token.NoPos, "byte heap still agrees with the entry heap outside the modifies clause")
+		}
+	}
 }
 
 // newHeapVersion declares a fresh version of heap name.
